@@ -916,7 +916,7 @@ Definition top_closed (s : list frame) : Prop :=
 Definition LiveE (st : pstate) (e : option (list tkind)) : Prop :=
   stack_ok (p_stack st) /\
   (p_cstate st <> CNone -> p_stack st <> []) /\
-  (p_cstate st = CNone -> forall f, In f (p_stack st) -> is_test f = false) /\
+  (p_cstate st = CNone -> forall f, In f (p_stack st) -> is_test f = false /\ iscomplete f None = true) /\
   n_paren (p_brackets st) + exp_ind e <= n_vartest (p_stack st) /\
   n_cbr (p_brackets st) + cs_ind (p_cstate st) <= n_nontest (p_stack st) /\
   (p_cstate st = CStrList ->
@@ -1023,13 +1023,22 @@ Proof.
         intros _ H. discriminate.
 Qed.
 
+Lemma nontest_below_complete : forall t c, stack_ok (c :: t) -> is_test c = false ->
+  forall f, In f t -> is_test f = false /\ iscomplete f None = true.
+Proof.
+  induction t as [|p t IH]; intros c Hs Hc f Hin; [destruct Hin|].
+  destruct Hs as (_ & Ha & Ht). unfold adj_ok in Ha. rewrite Hc in Ha. destruct Ha as (_ & Hctl & Hcomp & _).
+  pose proof (is_control_not_test _ Hctl) as Hp.
+  destruct Hin as [<-|Hin]; [split; assumption|]. apply (IH p Ht Hp f Hin).
+Qed.
+
 (* Parser.__up when the command being closed is not a test (';' and '}') *)
 Lemma up_nontest : forall st cur rest,
   p_stack st = cur :: rest -> stack_ok (cur :: rest) -> is_test cur = false ->
   match up st with
   | MTrue st' =>
       p_cstate st' = p_cstate st /\ p_brackets st' = p_brackets st /\ p_expected st' = p_expected st /\
-      stack_ok (p_stack st') /\ (forall f, In f (p_stack st') -> is_test f = false) /\
+      stack_ok (p_stack st') /\ (forall f, In f (p_stack st') -> is_test f = false /\ iscomplete f None = true) /\
       n_nontest (p_stack st') + 1 = n_nontest (cur :: rest)
   | MErr _ => True
   | _ => False
@@ -1052,7 +1061,9 @@ Proof.
     assert (Hs1 : stack_ok (p1 :: rest')) by (apply (stack_ok_replace parent); auto).
     split; [reflexivity|]. split; [reflexivity|]. split; [reflexivity|]. split; [exact Hs1|].
     split.
-    + intros f [<-|Hin]; [exact Hnt1|]. apply (nontest_below rest' p1 Hs1 Hnt1 f Hin).
+    + intros f [<-|Hin].
+      * split; [exact Hnt1|]. rewrite (iscomplete_ext parent p1 None Hd1 Hc1 Hr1). exact Hcomp.
+      * apply (nontest_below_complete rest' p1 Hs1 Hnt1 f Hin).
     + assert (Hpt : is_test parent = false) by (apply is_control_not_test; exact Hctl).
       rewrite !n_nontest_cons, Ht, Hnt1, Hpt. lia.
 Qed.
@@ -1178,15 +1189,15 @@ Definition hpost (st : pstate) (e : option (list tkind)) (t : token) (r : mres) 
   end.
 
 Lemma liveE_replace_top : forall st e cur rest cur',
-  LiveE st e -> p_stack st = cur :: rest -> fi cur' -> f_def cur' = f_def cur -> f_attach cur' = f_attach cur ->
+  LiveE st e -> p_cstate st <> CNone ->
+  p_stack st = cur :: rest -> fi cur' -> f_def cur' = f_def cur -> f_attach cur' = f_attach cur ->
   (p_cstate st = CArgs -> e = None -> has_test_slot (f_def cur') = false \/ iscomplete cur' None = true) ->
   LiveE (replace_top cur' st) e.
 Proof.
-  intros st e cur rest cur' (L1 & L2 & L3 & L4 & L5 & L6 & L7) Es Hf Hd Ha Hcl.
+  intros st e cur rest cur' (L1 & L2 & L3 & L4 & L5 & L6 & L7) Hnc Es Hf Hd Ha Hcl.
   unfold replace_top. rewrite Es. unfold LiveE. pcbn. rewrite Es in *.
   split; [apply (stack_ok_replace cur); auto|]. split; [intros _; discriminate|].
-  split.
-  { intros Hc f [<-|Hin]; [rewrite (is_test_def cur cur' Hd); apply (L3 Hc); left; reflexivity|apply (L3 Hc); right; exact Hin]. }
+  split; [intro Hc; contradiction|].
   split; [rewrite n_vartest_cons, (is_vartest_def cur cur' Hd), <- n_vartest_cons; exact L4|].
   split; [rewrite n_nontest_cons, (is_test_def cur cur' Hd), <- n_nontest_cons; exact L5|].
   split.
@@ -1237,11 +1248,12 @@ Proof.
   { unfold Live. assert (Hex : p_expected (replace_top cur' st) = p_expected st) by (unfold replace_top; rewrite Es; reflexivity).
     rewrite Hex, He.
     assert (HLn : LiveE st None).
-    { destruct HL as (A1 & A2 & A3 & A4 & A5 & A6 & A7). unfold LiveE. repeat split; auto.
-      - unfold exp_ind. cbn. lia.
-      - intro Hc. rewrite Hcs in Hc. discriminate.
-      - intros _ _. rewrite Es. left. exact Hnts. }
-    apply (liveE_replace_top st None cur rest cur' HLn Es Hf' Hd Ha).
+    { destruct HL as (A1 & A2 & A3 & A4 & A5 & A6 & A7). unfold LiveE.
+      split; [exact A1|]. split; [exact A2|]. split; [exact A3|].
+      split; [change (exp_ind None) with 0; lia|]. split; [exact A5|].
+      split; [intro Hc; rewrite Hcs in Hc; discriminate|].
+      intros _ _. rewrite Es. left. exact Hnts. }
+    apply (liveE_replace_top st None cur rest cur' HLn ltac:(rewrite Hcs; discriminate) Es Hf' Hd Ha).
     intros _ _. left. rewrite Hd. exact Hnts. }
   assert (Hst1 : p_stack (replace_top cur' st) = cur' :: rest) by (unfold replace_top; rewrite Es; reflexivity).
   assert (Hcs1 : p_cstate (replace_top cur' st) = CArgs) by (unfold replace_top; rewrite Es; exact Hcs).
@@ -1463,7 +1475,7 @@ Proof.
         split; [change (exp_ind None) with 0; lia|]. split; [exact L5|].
         split; [intro Hc; rewrite Hcs in Hc; discriminate|].
         intros _ _. cbn. left. exact Hnts. }
-      apply (liveE_replace_top st e0 cur rest cur' HL0 Es Hf' Hd Ha).
+      apply (liveE_replace_top st e0 cur rest cur' HL0 ltac:(rewrite Hcs; discriminate) Es Hf' Hd Ha).
       intros _ _. left. rewrite Hd. exact Hnts. }
     assert (Hex : p_expected (replace_top cur' st) = None) by (unfold replace_top; rewrite Es; exact He).
     assert (Hcr : p_cstate (replace_top cur' st) = CArgs) by (unfold replace_top; rewrite Es; exact Hcs).
@@ -1554,4 +1566,284 @@ Proof.
   - (* number *)
     unfold m_argument. rewrite Es, Ek.
     apply (scalar_post st e t TyNumber HL He Hcs (or_intror (or_introl eq_refl)) ltac:(rewrite Ek; split; discriminate) cur rest Es).
+Qed.
+
+Lemma cc_semicolon : forall st cur rest,
+  p_stack st = cur :: rest -> is_test cur = false -> d_accept_children (f_def cur) = false ->
+  check_completion st false = MTrue st.
+Proof.
+  intros st cur rest Es Ht Hc. unfold check_completion. rewrite Es.
+  destruct (iscomplete cur None); cbn [negb]; [|reflexivity].
+  assert (H : is_action cur || (is_control cur && negb (d_accept_children (f_def cur))) = true).
+  { rewrite Hc. unfold is_action, is_control, is_test in *. destruct (d_type (f_def cur)); try reflexivity; discriminate. }
+  rewrite H. reflexivity.
+Qed.
+
+Lemma complete_cb_post : forall st cur rest,
+  p_stack st = cur :: rest -> fi cur ->
+  match complete_cb st with
+  | MTrue st' => st' = st \/ exists L, st' = with_loaded L st
+  | _ => False
+  end.
+Proof.
+  intros st cur rest Es (Htw & _ & Hnt & _). unfold complete_cb. rewrite Es.
+  destruct (d_complete (f_def cur)) eqn:Ec; [left; reflexivity|].
+  destruct (assoc_get capabilities_key (f_args cur)) as [v|] eqn:Eg; [|left; reflexivity].
+  destruct (assoc_get_In _ _ _ _ Eg) as (k & Hin).
+  pose proof (Hnt (twf_hrequire _ Htw Ec) k v Hin) as Hv.
+  destruct v; try discriminate; right; eexists; reflexivity.
+Qed.
+
+Lemma liveE_expected_irrelevant : forall st e x, LiveE (with_expected x st) e <-> LiveE st e.
+Proof. intros st e x. unfold LiveE. pcbn. tauto. Qed.
+
+Definition after_handler (t : token) (r : mres) : mres :=
+  match r with
+  | MFalse st1 =>
+      match t_kind t with
+      | TLeftCBracket =>
+          match p_stack st1 with
+          | [] => MCrash
+          | cur :: _ =>
+              if is_control cur && d_accept_children (f_def cur) && iscomplete cur None
+              then MTrue (with_cstate CNone (with_brackets (BRCBracket :: p_brackets st1) st1))
+              else MFalse st1
+          end
+      | TSemicolon =>
+          match p_stack st1 with
+          | [] => MCrash
+          | cur :: _ =>
+              if is_test cur || d_accept_children (f_def cur) then MFalse st1
+              else
+                match check_completion (with_cstate CNone st1) false with
+                | MTrue st2 =>
+                    match complete_cb st2 with
+                    | MTrue st3 => up st3
+                    | r' => r'
+                    end
+                | MRewind st2 => MCrash
+                | r' => r'
+                end
+          end
+      | _ => MFalse st1
+      end
+  | _ => r
+  end.
+
+Lemma after_handler_post : forall st e t r,
+  p_cstate st <> CNone -> hpost st e t r -> res_inv (after_handler t r).
+Proof.
+  intros st e t r Hcs H. unfold after_handler.
+  destruct r as [st'|st'|st1|err|]; try exact H; try exact I.
+  unfold hpost in H.
+  destruct (t_kind t) eqn:Ek; try exact I.
+  - (* '{' opens the block of a complete control *)
+    destruct (H (or_introl eq_refl)) as ((L1 & L2 & L3 & L4 & L5 & L6 & L7) & He & Hc1).
+    destruct (p_stack st1) as [|cur rest] eqn:Es; [exfalso; apply L2; [rewrite Hc1; exact Hcs|reflexivity]|].
+    destruct (is_control cur && d_accept_children (f_def cur) && iscomplete cur None) eqn:Eok; [|exact I].
+    apply andb_true_iff in Eok. destruct Eok as [Eok Hcomp]. apply andb_true_iff in Eok. destruct Eok as [Hctl Hch].
+    pose proof (is_control_not_test _ Hctl) as Hnt.
+    cbn. right. unfold Live, LiveE. pcbn. rewrite Es, He.
+    split; [exact L1|]. split; [intro X; congruence|].
+    split.
+    { intros _ f [<-|Hin]; [split; assumption|]. apply (nontest_below_complete rest cur L1 Hnt f Hin). }
+    split; [rewrite n_paren_cons; change (exp_ind None) with 0; pose proof (exp_ind_le e); lia|].
+    split.
+    { rewrite n_cbr_cons. cbn [cs_ind].
+      assert (cs_ind (p_cstate st1) = 1) by (rewrite Hc1; destruct (p_cstate st); [congruence|reflexivity|reflexivity]). lia. }
+    split; [discriminate|discriminate].
+  - (* ';' closes a command that takes no block *)
+    destruct (H (or_intror eq_refl)) as ((L1 & L2 & L3 & L4 & L5 & L6 & L7) & He & Hc1).
+    destruct (p_stack st1) as [|cur rest] eqn:Es; [exfalso; apply L2; [rewrite Hc1; exact Hcs|reflexivity]|].
+    destruct (is_test cur || d_accept_children (f_def cur)) eqn:Etc; [exact I|].
+    apply orb_false_iff in Etc. destruct Etc as [Hnt Hch].
+    set (st2 := with_cstate CNone st1).
+    assert (Es2 : p_stack st2 = cur :: rest) by (unfold st2; pcbn; exact Es).
+    rewrite (cc_semicolon st2 cur rest Es2 Hnt Hch).
+    pose proof (complete_cb_post st2 cur rest Es2 (stack_ok_top _ _ L1)) as C.
+    destruct (complete_cb st2) as [st3| | | |]; try contradiction.
+    assert (Hst3 : p_stack st3 = cur :: rest /\ p_cstate st3 = CNone /\ p_brackets st3 = p_brackets st1 /\ p_expected st3 = None).
+    { destruct C as [->|(L & ->)]; unfold st2; pcbn; auto. }
+    destruct Hst3 as (S1 & S2 & S3 & S4).
+    pose proof (up_nontest st3 cur rest S1 L1 Hnt) as U.
+    destruct (up st3) as [st4| | | |]; try contradiction; [|exact I].
+    destruct U as (U1 & U2 & U3 & U4 & U5 & U6).
+    cbn. right. unfold Live, LiveE. rewrite U1, U2, U3, S2, S3, S4.
+    split; [exact U4|]. split; [intro X; congruence|]. split; [intros _; exact U5|].
+    assert (Hv0 : n_vartest (p_stack st4) = 0) by (apply n_vartest_nontest; intros f Hf; apply U5; exact Hf).
+    assert (Hv1 : n_vartest (cur :: rest) = 0) by (apply n_vartest_nontest_top; assumption).
+    split; [rewrite Hv0; change (exp_ind None) with 0; rewrite Hv1 in L4; lia|].
+    split.
+    { cbn [cs_ind].
+      assert (cs_ind (p_cstate st1) = 1) by (rewrite Hc1; destruct (p_cstate st); [congruence|reflexivity|reflexivity]). lia. }
+    split; [discriminate|discriminate].
+Qed.
+
+Lemma m_command_post : forall T st e t,
+  twf_tables T = true ->
+  LiveE st e -> p_expected st = None -> passes e (t_kind t) ->
+  res_inv (m_command T st t).
+Proof.
+  intros T st e t HT HL He Hp. pose proof HL as (L1 & L2 & L3 & L4 & L5 & L6 & L7).
+  unfold m_command. destruct (p_cstate st) eqn:Hcs.
+  - (* between commands *)
+    destruct (t_kind t) eqn:Ek; try exact I.
+    + (* '}' *)
+      destruct (pop_bracket st BRCBracket) as [st1|err] eqn:Epb; [|exact I].
+      destruct (pop_bracket_inl _ _ _ Epb) as (b & Hb & ->).
+      destruct (p_stack st) as [|cur rest] eqn:Es.
+      { exfalso. rewrite Hb, n_cbr_cons in L5. cbn in L5. lia. }
+      assert (Hnt : is_test cur = false) by (apply (L3 eq_refl); left; reflexivity).
+      pose proof (up_nontest (with_brackets b st) cur rest Es L1 Hnt) as U.
+      destruct (up (with_brackets b st)) as [st2| | | |]; try contradiction; [|exact I].
+      destruct U as (U1 & U2 & U3 & U4 & U5 & U6).
+      cbn. right. unfold Live, LiveE. pcbn. rewrite U2, U3. pcbn. rewrite He.
+      split; [exact U4|]. split; [intro H; congruence|]. split; [intros _; exact U5|].
+      assert (Hv0 : n_vartest (p_stack st2) = 0) by (apply n_vartest_nontest; intros f Hf; apply U5; exact Hf).
+      assert (Hv1 : n_vartest (cur :: rest) = 0) by (apply n_vartest_nontest_top; assumption).
+      split; [rewrite Hv0; change (exp_ind None) with 0; rewrite Hb, n_paren_cons, Hv1 in L4; lia|].
+      split; [cbn [cs_ind]; rewrite Hb, n_cbr_cons in L5; cbn [cs_ind] in L5; lia|].
+      split; [discriminate|discriminate].
+    + (* a command name *)
+      destruct (get_command_instance T (p_loaded st) (t_val t)) as [d|err] eqn:Eg; [|exact I].
+      pose proof (gci_twf _ _ _ _ HT Eg) as Htd.
+      destruct (d_type d) eqn:Edt; try exact I.
+      * (* control *)
+        set (st1 := if d_accept_children d && has_arguments d then with_expected (Some [TIdentifier]) st else st).
+        assert (Hst1 : p_stack st1 = p_stack st /\ p_brackets st1 = p_brackets st /\
+                       (p_expected st1 = None \/ p_expected st1 = Some [TIdentifier]) /\
+                       (p_expected st1 = None -> has_test_slot d = false)).
+        { unfold st1. destruct (d_accept_children d && has_arguments d) eqn:Eca; pcbn.
+          - repeat split; auto. intro H; discriminate.
+          - repeat split; auto. intros _. destruct (has_test_slot d) eqn:Hts; auto. exfalso.
+            destruct (twf_test_slot d Htd Hts) as (a & Ha & _).
+            unfold twf in Htd. rewrite Hts, Ha, Edt in Htd.
+            repeat match goal with K : (_ && _)%bool = true |- _ => apply andb_true_iff in K; destruct K end.
+            unfold has_arguments in Eca. rewrite Ha in Eca.
+            match goal with K : (_ || _)%bool = true |- _ => apply orb_true_iff in K; destruct K as [K|K] end;
+              repeat match goal with K : (_ && _)%bool = true |- _ => apply andb_true_iff in K; destruct K end.
+            + match goal with K : d_accept_children d = true |- _ => rewrite K in Eca end. discriminate.
+            + unfold is_ctest in *. rewrite Edt in *. discriminate. }
+        destruct Hst1 as (S1 & S2 & S3 & S4).
+        assert (Hfin : forall at_ below,
+                  p_stack st = below -> (below = [] \/ exists cur r, below = cur :: r /\ d_accept_children (f_def cur) = true) ->
+                  (below <> [] -> at_ = AtChild) ->
+                  Inv (with_cstate CArgs (with_stack (new_frame d at_ :: below) st1))).
+        { intros at_ below Eb Hbelow Hat. right. unfold Live, LiveE. pcbn. rewrite S2.
+          set (N := new_frame d at_).
+          assert (Hnt : is_test N = false) by (unfold is_test, N; cbn; rewrite Edt; reflexivity).
+          assert (Hok : stack_ok (N :: below)).
+          { cbn [stack_ok]. split; [apply fi_new_frame; exact Htd|]. rewrite Eb in L1. split; [|exact L1].
+            destruct Hbelow as [->|(cur & r & -> & Hch)]; [exact Hnt|].
+            pose proof (stack_ok_top _ _ L1) as Hfc. assert (Htwc : twf (f_def cur) = true) by apply Hfc.
+            destruct (L3 eq_refl cur) as (Hntc & Hcc); [rewrite Eb; left; reflexivity|].
+            unfold adj_ok. rewrite Hnt. split; [apply twf_children_det; assumption|].
+            split.
+            - unfold is_control, is_test in *. unfold twf in Htwc.
+              destruct (d_type (f_def cur)) eqn:Etc; try reflexivity; try discriminate.
+              repeat match goal with K : (_ && _)%bool = true |- _ => apply andb_true_iff in K; destruct K end.
+              rewrite Hch in *. discriminate.
+            - split; [exact Hcc|]. unfold plain_attach, N. cbn. rewrite (Hat ltac:(discriminate)). exact I. }
+          split; [exact Hok|]. split; [intros _; discriminate|]. split; [discriminate|].
+          rewrite Eb in L4, L5.
+          split.
+          { rewrite n_vartest_cons. unfold is_vartest. rewrite Hnt. cbn [andb].
+            assert (exp_ind (p_expected st1) = 0) by (destruct S3 as [-> | ->]; reflexivity). lia. }
+          split; [rewrite n_nontest_cons, Hnt; cbn [cs_ind] in *; lia|].
+          split; [discriminate|].
+          intros _ Hn. cbn. left. unfold N. cbn [f_def new_frame]. apply S4. exact Hn. }
+        destruct (p_stack st) as [|cur rest] eqn:Es.
+        -- cbn. apply (Hfin AtTop []); auto. intro H; congruence.
+        -- destruct (d_accept_children (f_def cur)) eqn:Ech; [|exact I].
+           cbn. apply (Hfin AtChild (cur :: rest)); auto. right. exists cur, rest. auto.
+      * (* action *)
+        assert (Hnts : has_test_slot d = false).
+        { destruct (has_test_slot d) eqn:Hts; auto. exfalso.
+          destruct (twf_test_slot_kind d Htd Hts) as (_ & Hk & _). rewrite Edt in Hk. exact Hk. }
+        assert (Hfin : forall at_ below,
+                  p_stack st = below -> (below = [] \/ exists cur r, below = cur :: r /\ d_accept_children (f_def cur) = true) ->
+                  (below <> [] -> at_ = AtChild) ->
+                  Inv (with_cstate CArgs (with_stack (new_frame d at_ :: below) st))).
+        { intros at_ below Eb Hbelow Hat. right. unfold Live, LiveE. pcbn. rewrite He.
+          set (N := new_frame d at_).
+          assert (Hnt : is_test N = false) by (unfold is_test, N; cbn; rewrite Edt; reflexivity).
+          assert (Hok : stack_ok (N :: below)).
+          { cbn [stack_ok]. split; [apply fi_new_frame; exact Htd|]. rewrite Eb in L1. split; [|exact L1].
+            destruct Hbelow as [->|(cur & r & -> & Hch)]; [exact Hnt|].
+            pose proof (stack_ok_top _ _ L1) as Hfc. assert (Htwc : twf (f_def cur) = true) by apply Hfc.
+            destruct (L3 eq_refl cur) as (Hntc & Hcc); [rewrite Eb; left; reflexivity|].
+            unfold adj_ok. rewrite Hnt. split; [apply twf_children_det; assumption|].
+            split.
+            - unfold is_control, is_test in *. unfold twf in Htwc.
+              destruct (d_type (f_def cur)) eqn:Etc; try reflexivity; try discriminate.
+              repeat match goal with K : (_ && _)%bool = true |- _ => apply andb_true_iff in K; destruct K end.
+              rewrite Hch in *. discriminate.
+            - split; [exact Hcc|]. unfold plain_attach, N. cbn. rewrite (Hat ltac:(discriminate)). exact I. }
+          split; [exact Hok|]. split; [intros _; discriminate|]. split; [discriminate|].
+          rewrite Eb in L4, L5.
+          split; [rewrite n_vartest_cons; unfold is_vartest; rewrite Hnt; cbn [andb]; change (exp_ind None) with 0; lia|].
+          split; [rewrite n_nontest_cons, Hnt; cbn [cs_ind] in *; lia|].
+          split; [discriminate|].
+          intros _ _. cbn. left. exact Hnts. }
+        destruct (p_stack st) as [|cur rest] eqn:Es.
+        -- cbn. apply (Hfin AtTop []); auto. intro H; congruence.
+        -- destruct (d_accept_children (f_def cur)) eqn:Ech; [|exact I].
+           cbn. apply (Hfin AtChild (cur :: rest)); auto. right. exists cur, rest. auto.
+  - (* inside the arguments of a command *)
+    change (res_inv (after_handler t (m_arguments T st t))).
+    apply (after_handler_post st e t); [rewrite Hcs; discriminate|].
+    apply m_arguments_post; assumption.
+  - (* inside a string list *)
+    change (res_inv (after_handler t (m_stringlist st t))).
+    apply (after_handler_post st e t); [rewrite Hcs; discriminate|].
+    apply m_stringlist_post; assumption.
+Qed.
+
+Lemma inv_with_hash : forall st h, Inv st -> Inv (with_hash h st).
+Proof.
+  intros st h [(D1 & D2 & D3)|HL]; [left|right].
+  - unfold Dead. pcbn. auto.
+  - unfold Live, LiveE in *. pcbn. exact HL.
+Qed.
+
+Lemma dead_step : forall T st t,
+  Dead st -> kind_mem (t_kind t) [TIdentifier] = true ->
+  match m_command T (with_expected None st) t with
+  | MCrash | MTrue _ | MRewind _ => False
+  | _ => True
+  end.
+Proof.
+  intros T st t (Hcs & He & f & r & Es & Hfi & Hclosed) Hk.
+  assert (Ek : t_kind t = TIdentifier) by (destruct (t_kind t); cbn in Hk; try discriminate; reflexivity).
+  unfold m_command. pcbn. rewrite Hcs. unfold m_arguments. pcbn. rewrite Ek, Es.
+  destruct (get_command_instance T (p_loaded st) (t_val t)) as [d|err]; [|exact I].
+  destruct (d_type d); try exact I.
+  pose proof (accepts_no_test f true true (p_loaded st) Hfi Hclosed) as A.
+  destruct (check_next_arg f TyTest placeholder true true (p_loaded st)); try contradiction; exact I.
+Qed.
+
+(* Part 3, main theorem: the invariant is preserved by every step and no step crashes *)
+Theorem process_inv : forall T st t,
+  twf_tables T = true -> Inv st -> res_inv (process T st t).
+Proof.
+  intros T st t HT HI. unfold process.
+  assert (G : res_inv match p_expected st with
+                      | Some l => if kind_mem (t_kind t) l then m_command T (with_expected None st) t else MErr EExpected
+                      | None => m_command T st t
+                      end).
+  { destruct HI as [HD|HL].
+    - pose proof HD as (_ & He & _). rewrite He.
+      destruct (kind_mem (t_kind t) [TIdentifier]) eqn:Ek; [|exact I].
+      pose proof (dead_step T st t HD Ek) as D.
+      destruct (m_command T (with_expected None st) t); try contradiction; exact I.
+    - destruct (p_expected st) as [l|] eqn:Ee.
+      + destruct (kind_mem (t_kind t) l) eqn:Ek; [|exact I].
+        apply (m_command_post T (with_expected None st) (Some l) t HT).
+        * apply liveE_expected_irrelevant. unfold Live in HL. rewrite Ee in HL. exact HL.
+        * reflexivity.
+        * exact Ek.
+      + apply (m_command_post T st None t HT); [unfold Live in HL; rewrite Ee in HL; exact HL|exact Ee|exact I]. }
+  destruct (t_kind t); try exact G.
+  - cbn. apply inv_with_hash. exact HI.
+  - cbn. exact HI.
 Qed.
